@@ -1,9 +1,25 @@
 """C04 - foreign-architecture and x32 events never reach the rules."""
 import polfam
+import vlib
 
 
 def check(ctx, replay=None):
     if replay:
+        import json
+        rep = json.load(open(replay))
+        if "script" in rep:
+            # a history of several loads: re-run it in a fresh child and judge the programs handed to the kernel
+            import loaderfam
+            d = loaderfam.child_bin(ctx)
+            obs, err = loaderfam.run_child(d + "/loadchild", rep["script"], True)
+            if obs is None:
+                raise vlib.Machinery("child failed: " + err)
+            bad = [o["installed_foreign"] for o in obs if o.get("installed_foreign")]
+            print("replay: %s" % (bad or "every installed program answers foreign and x32 events before its rules"))
+            if bad:
+                print("VIOLATION property=C04 replay=%s" % replay)
+                return 1
+            return 0
         return polfam.replay_one(ctx, replay)
     th = ctx.tier == "thorough"
     plan = [
@@ -15,6 +31,11 @@ def check(ctx, replay=None):
         dict(scope="rich", mc=["PathOK"], mc_maxskips=[3] if th else [], stride=4 if th else 12, concs=2, expand=4),
     ]
     polfam.run_family(ctx, plan, mine={"foreign", "x32"}, decision_owner=None)
+    # the filter a process INSTALLS is the compiled one also at its second and third load: the programs hook H2 sees in histories of
+    # several loads (Loader.tla: own and repeated policies, with and without thread-sync) are run on foreign and x32 events
+    import loaderfam
+    loaderfam.installed_programs(ctx, "installed_foreign", "a program handed to the kernel lets a foreign-architecture or x32 event reach its rules",
+                                 n=96 if th else 40)
     ctx.cov["rule"] = ("every policy of the scope x every architecture word the package knows (+0, ~0, own+-1, own with a high bit flipped) x the "
                        "nr classes incl. 0x40000000, 0x40000000|n, 0x80000000, 0xFFFFFFFF; the executed path must contain no load other than "
                        "arch (and nr + the x32 guard compare for x32 events)")
